@@ -45,12 +45,15 @@ class Obligation:
 
 class Run:
     """One tabulated analysis of a function on a canonical input."""
-    __slots__ = ("name", "obls", "children", "ret", "out", "idx", "calls")
+    __slots__ = ("name", "obls", "children", "ret", "out", "idx", "calls", "wloops", "visited", "defk")
 
     def __init__(self, name, idx):
         self.name = name
         self.idx = idx
+        self.defk = None
         self.calls = {}
+        self.wloops = set()
+        self.visited = set()
         self.obls = {}
         self.children = {}
         self.ret = None
@@ -1035,6 +1038,7 @@ class Interp:
             if run is None:
                 idx = len(self.cache)
                 run = Run(body.name, idx)
+                run.defk = body.defk
                 self.cache[ckey] = run
                 cfid = (("canon", body.defk, idx),)
                 saved = {c: _ATOM_RANGE.get(c) for c in rn.am.values()}
@@ -1194,6 +1198,9 @@ class Interp:
             if visits[node] > MAX_VISITS * 2:
                 raise AnalysisError("no convergence in %s bb%d" % (body.name, bb))
             last_in[node] = cur
+            run.visited.add(bb)
+            if k == "w":
+                run.wloops.add(fr.unroll.get(bb))
             outs = self.exec_block(fr, cur.copy(), bb, k)
             for (tbb, tst) in outs:
                 if tbb == "return":
